@@ -45,35 +45,49 @@ Lemma returns_random_float_plain a b :
   returns (random_float a b None) (fun x => PrimFloat.ltb x a = false /\ PrimFloat.ltb b x = false).
 Proof. intros H. unfold random_float. rewrite H. apply returns_uniform. exact H. Qed.
 
+(* with a precision the drawn grid point is clamped into [a, b] *)
+Lemma returns_random_float_prec a b p :
+  PrimFloat.ltb b a = false -> prec_ok a b p = true ->
+  returns (random_float a b (Some p)) (fun x => PrimFloat.ltb x a = false /\ PrimFloat.ltb b x = false).
+Proof.
+  intros Hab Hp. unfold random_float. rewrite Hab. unfold prec_ok in Hp. cbv zeta.
+  destruct (r_py_int (PrimFloat.mul a (scale10 p))) as [l| |] eqn:El; try discriminate.
+  destruct (r_py_int (PrimFloat.mul b (scale10 p))) as [r| |] eqn:Er; try discriminate.
+  apply Z.leb_le in Hp.
+  eapply returns_bind; [eapply (returns_mlift _ l (fun z => z = l)); eauto|]. intros l0 ->.
+  eapply returns_bind; [eapply (returns_mlift _ r (fun z => z = r)); eauto|]. intros r0 ->.
+  eapply returns_bind; [apply returns_randint; exact Hp|]. intros k _.
+  apply returns_ret.
+  set (x := py_round_nd (py_truediv k (10 ^ p)) p).
+  set (y := if PrimFloat.ltb x a then a else x).
+  assert (Hy : PrimFloat.ltb y a = false).
+  { unfold y. destruct (PrimFloat.ltb x a) eqn:E; [apply ltb_irrefl | exact E]. }
+  destruct (PrimFloat.ltb b y) eqn:E.
+  - split; [exact Hab | apply ltb_irrefl].
+  - split; [exact Hy | exact E].
+Qed.
+
+Lemma float_lo_hi_ordered mn mx :
+  match mn, mx with Some a, Some b => PrimFloat.ltb b a = false | _, _ => True end ->
+  PrimFloat.ltb (snd (float_lo_hi mn mx)) (fst (float_lo_hi mn mx)) = false.
+Proof.
+  unfold float_lo_hi. destruct mn, mx; simpl; intros H; auto using pymax_ok, pymin_ok.
+Qed.
+
 Lemma g_float_sound val mn mx pr :
   sat_float val mn mx pr -> returns (g_float val mn mx pr) (conforms (SFloat val mn mx pr)).
 Proof.
   intros Hs. unfold g_float. destruct val as [x|].
   - apply returns_ret. destruct Hs as (H1 & H2 & H3). exists x. cbn. auto.
-  - destruct pr as [p|].
-    + destruct Hs as (-> & -> & Hp). cbv beta iota.
-      unfold random_float. rewrite pymax_ok.
-      unfold prec_free_ok in Hp.
-      destruct (r_py_int (PrimFloat.mul FLOAT_MIN (scale10 (iz p)))) as [l| |] eqn:El; try discriminate.
-      destruct (r_py_int (PrimFloat.mul (pymax_f FLOAT_MAX FLOAT_MIN) (scale10 (iz p)))) as [r| |] eqn:Er;
-        try discriminate.
-      apply Z.leb_le in Hp. cbv zeta.
-      eapply returns_bind with (P := fun _ => True).
-      * eapply returns_bind; [eapply (returns_mlift _ l (fun z => z = l)); eauto|]. intros l0 ->.
-        eapply returns_bind; [eapply (returns_mlift _ r (fun z => z = r)); eauto|]. intros r0 ->.
-        eapply returns_bind; [apply returns_randint; exact Hp|]. intros k _.
-        apply returns_ret. exact I.
-      * intros x _. apply returns_ret. exists x. cbn. auto.
-    + set (lo0 := match mn with Some m => m | None => FLOAT_MIN end).
-      set (hi0 := match mx with Some m => m | None => FLOAT_MAX end).
-      set (hi := match mx with None => pymax_f hi0 lo0 | Some _ => hi0 end).
-      set (lo := match mx, mn with Some _, None => pymin_f lo0 hi | _, _ => lo0 end).
-      assert (Hle : PrimFloat.ltb hi lo = false).
-      { unfold lo, hi, lo0, hi0, sat_float in *. destruct mn, mx; simpl; auto using pymax_ok, pymin_ok. }
-      eapply returns_bind; [apply returns_random_float_plain; exact Hle|]. intros x [H1 H2].
-      apply returns_ret. exists x. cbn. repeat split; auto.
-      * unfold lo, hi, lo0, hi0 in *. destruct mn as [a|]; cbn; auto. destruct mx; simpl in *; auto.
-      * unfold lo, hi, lo0, hi0 in *. destruct mx as [b|]; cbn; auto.
+  - destruct Hs as [Hord Hpr]. pose proof (float_lo_hi_ordered mn mx Hord) as Hle.
+    eapply returns_bind with (P := fun x => PrimFloat.ltb x (fst (float_lo_hi mn mx)) = false /\
+                                            PrimFloat.ltb (snd (float_lo_hi mn mx)) x = false).
+    + destruct pr as [p|].
+      * apply returns_random_float_prec; auto.
+      * apply returns_random_float_plain; auto.
+    + intros x [H1 H2]. apply returns_ret. exists x. cbn. repeat split; auto.
+      * unfold float_lo_hi in *. destruct mn as [a|]; cbn; auto. destruct mx; simpl in *; auto.
+      * unfold float_lo_hi in *. destruct mx as [b|]; cbn; auto.
 Qed.
 
 (* ---- str ---- *)
@@ -112,8 +126,14 @@ Proof.
   intros (Hal & Hlen). unfold g_str.
   set (alphabet := match al with Some a => a | None => STR_ALPHABET end).
   (* the drawn length L satisfies everything the rest needs *)
-  set (good := fun L : Z => sub_len sub <= L /\ 0 <= L /\ len_ok L len mnl mxl /\
-                            (al = Some [] -> L = sub_len sub)).
+  set (good := fun L : Z => sub_len sub <= L /\ 0 <= L /\ len_ok L len mnl mxl).
+  assert (Hempty : alphabet = [] -> len_ok (sub_len sub) len mnl mxl).
+  { intros Ha. assert (Hal0 : al = Some []).
+    { unfold alphabet in Ha. destruct al as [a|]; [subst; reflexivity|].
+      exfalso. apply str_alphabet_nonempty. exact Ha. }
+    destruct len as [k|]; [destruct Hlen as (_ & _ & _ & H) | cbv zeta in Hlen; destruct Hlen as (_ & _ & _ & H)];
+      apply H; exact Hal0. }
+  assert (Hsl0 : 0 <= sub_len sub) by (unfold sub_len, zlen; destruct sub; lia).
   eapply returns_bind with (P := good).
   - destruct len as [k|].
     + destruct Hlen as (H0 & H1 & H2 & H3). apply returns_ret. unfold good. auto.
@@ -131,13 +151,16 @@ Proof.
       assert (Hsub : match sub with Some t => zlen t | None => 0 end <= L) by (subst lo; destruct sub; lia).
       assert (H0L : 0 <= L) by lia.
       repeat split; auto.
-      intros Ha. specialize (H3 Ha). subst lo hi. unfold sub_len in *. destruct sub; lia.
-  - intros L (HL1 & HL0 & HL2 & HL3).
+  - intros L0 HL0.
+    set (L := match alphabet with [] => match sub with Some t => zlen t | None => 0 end | _ => L0 end).
+    assert (HL : good L /\ (alphabet = [] -> L = sub_len sub)).
+    { unfold L. destruct alphabet as [|c a] eqn:Ea.
+      - change (match sub with Some t => zlen t | None => 0 end) with (sub_len sub).
+        split; [|intros _; reflexivity]. unfold good. split; [lia|]. split; [lia|]. apply Hempty; reflexivity.
+      - split; [exact HL0 | discriminate]. }
+    destruct HL as ((HL1 & HL0' & HL2) & HL3).
     assert (Hne : alphabet <> [] \/ L - sub_len sub <= 0).
-    { destruct al as [[|c a]|] eqn:Ea.
-      - right. specialize (HL3 eq_refl). lia.
-      - left. unfold alphabet. discriminate.
-      - left. unfold alphabet. apply str_alphabet_nonempty. }
+    { destruct alphabet as [|c a] eqn:Ea; [right; rewrite HL3 by reflexivity; lia | left; discriminate]. }
     assert (Halpha : forall s, Forall (fun c => In c alphabet) s ->
                                opt_holds al (fun a => Forall (fun c => In c a) s)).
     { intros s Hs. unfold alphabet in Hs. destruct al; cbn; auto. }
